@@ -481,6 +481,8 @@ def main(tier, seed):
             msgs = [m for f, m in oracle(l2, p2, run_impl(l2, p2)) if f == fn]
             rep.violation("general.%s breaks C20 on labels=%r preds=%r: %s" % (fn, l2, p2, msgs[0] if msgs else msg),
                           dict(kind="measures", function=fn, labels=l2, preds=p2), key="general." + fn)
+    import drive_streams
+    nviol += drive_streams.reused_label_buffers(rep, rng, tier)
     rep.extra["oracle_violations"] = nviol
 
     # ---- normalize
